@@ -447,6 +447,30 @@ func runC03(c *runCfg) error {
 			emitSession(c, &vc)
 		}
 	}
+	// (ii-b) "a function of the client's byte stream alone": the transcript of a connection served next to another
+	// connection of the same server — one whose batch has failed and which has not sent its Sync yet — is the
+	// transcript of the same stream served alone (variant .v0)
+	{
+		ok := stmtT{id: 1, cols: textCols(1), prog: []opT{{kind: "row", vals: []valT{tv("r")}}, {kind: "complete", tag: []byte("SELECT 1")}}, ret: "nil"}
+		cfg := cfgT{limit: 1024, auth: "none", term: "none", parse: []parseEntry{{query: []byte("ok"), stmts: []stmtT{ok}}}}
+		for r := 0; r < 4; r++ {
+			healthyMsgs := [][]byte{mQuery([]byte("ok")), mParse(nil, []byte("ok"), 0), mBind(nil, nil, nil, nil, nil), mDescribe('P', nil), mExecute(nil, 0), mSync(), mQuery([]byte("ok"))}
+			solo := lockCase(0, "beside_failed_batch", cfg, startupMsg("user", "healthy"), healthyMsgs)
+			solo.id = fmt.Sprintf("%d.v0", 900000+r)
+			emitSession(c, solo)
+			failing := lockCase(0, "beside_failed_batch", cfg, startupMsg("user", "failing"), [][]byte{
+				[][]byte{mBind(nil, []byte("missing"), nil, nil, nil), mExecute([]byte("nope"), 0)}[r%2],
+				mParse(nil, []byte("ok"), 0), mBind(nil, nil, nil, nil, nil), mExecute(nil, 0), mSync(), mQuery([]byte("ok"))})
+			failing.id = fmt.Sprintf("%d.failing", 900000+r)
+			healthy := lockCase(0, "beside_failed_batch", cfg, startupMsg("user", "healthy"), healthyMsgs)
+			healthy.id = fmt.Sprintf("%d.v1", 900000+r)
+			sched := []int{0, 1, 0, 1, 1, 1, 1, 1, 1, 1, 0, 0, 0, 0, 0}
+			if r >= 2 {
+				sched = []int{1, 0, 0, 1, 1, 0, 1, 1, 0, 1, 1, 0, 1, 0, 0}
+			}
+			emitMulti(c, "beside_failed_batch", []*caseT{failing, healthy}, sched, false)
+		}
+	}
 	// (iii) surplus behind the last field of the message that starts a binary COPY: the row reader of the
 	// library must not see it (reference run without surplus first, then the variants of the same group)
 	for k := 0; k < 12; k++ {
@@ -546,6 +570,16 @@ func runC18(c *runCfg) error {
 					cp := []byte(fmt.Sprintf("closing%d", k))
 					msgs = append(msgs, mBind(cp, []byte("s"), nil, []bindP{{v: bytes.Repeat([]byte{byte('c' + k)}, 9+k)}, {v: []byte("kept by the handler")}}, nil), mExecute(cp, 0), mClose('P', cp), mSync(), mQuery(longQ))
 				}
+			}
+		}
+		// volume: "for as long as the holder retains them" — a long run of ordinary messages below the allocation
+		// granule (tens of granules' worth) after everything above has been handed out
+		if i%6 == 5 {
+			for k := 0; k < 70; k++ {
+				sz := []int{3000, 2047, 4000, 1500}[(k+i)%4]
+				body := bytes.Repeat([]byte{byte('a' + k%26)}, sz)
+				body[sz-1] = 0
+				msgs = append(msgs, msg(byte("Qz"[k%2]), body))
 			}
 		}
 		msgs = append(msgs, mQuery(longQ), mExecute([]byte("p"), 0), mSync(), mTerminate())
